@@ -4,6 +4,7 @@
 mod foreign;
 mod props;
 mod reference;
+mod refmodel;
 mod sio;
 mod util;
 mod zipapi;
